@@ -490,6 +490,58 @@ def solve_structure(ctx, mod):
                       f'loop bound does not span the band of width {band}',
                       ctx.where(mod, n), sample={'bound': txt})
     ctx.floor('C03.S5.solve', 20)
+    # the elimination is a fixed sequence of arithmetic operations: no
+    # decision may look at the VALUES of the matrix or the right-hand side
+    # (a pivot threshold, a skipped "zero" entry, a clipped value make the
+    # result differ from the solution of the system that was given)
+    arrays, taint = {amat, bvec}, set()
+
+    def reads_values(e):
+        for x in ast.walk(e):
+            if isinstance(x, ast.Subscript) and isinstance(
+                    x.value, ast.Name) and x.value.id in arrays:
+                return True
+            if isinstance(x, ast.Name) and x.id in taint:
+                return True
+        return False
+    grew = True
+    while grew:
+        grew = False
+        for n in ast.walk(fn):
+            tg = None
+            if isinstance(n, ast.Assign):
+                tg = n.targets
+            elif isinstance(n, ast.AugAssign):
+                tg = [n.target]
+            if not tg:
+                continue
+            if isinstance(n.value, ast.Name) and n.value.id in arrays:
+                for t in tg:
+                    if isinstance(t, ast.Name) and t.id not in arrays:
+                        arrays.add(t.id)
+                        grew = True
+            elif reads_values(n.value):
+                for t in tg:
+                    if isinstance(t, ast.Name) and t.id not in taint:
+                        taint.add(t.id)
+                        grew = True
+    tests = [n.test for n in ast.walk(fn)
+             if isinstance(n, (ast.If, ast.While, ast.IfExp))]
+    bad = [t for t in tests if reads_values(t)]
+    ctx.check('C03.S5.solve', 'solve is oblivious of the values', not bad,
+              'a decision of the banded solver depends on the values of the '
+              f'matrix / right-hand side (`{ast.unparse(bad[0]) if bad else ""}`'
+              '): for some systems the result is not the solution of the '
+              'system it was given', ctx.where(mod, bad[0] if bad else fn))
+    clip = [n for n in ast.walk(fn) if isinstance(n, ast.Call) and
+            ast.unparse(n.func) in ('max', 'min', 'np.maximum', 'np.minimum',
+                                    'np.clip', 'np.where', 'abs', 'np.abs')
+            and reads_values(n)]
+    ctx.check('C03.S5.solve', 'solve does not clip values', not clip,
+              'a value of the system is clipped / selected '
+              f'(`{ast.unparse(clip[0]) if clip else ""}`): the elimination '
+              'no longer solves the given system',
+              ctx.where(mod, clip[0] if clip else fn))
 
 
 # ---------------------------------------------------------------------------
